@@ -803,17 +803,19 @@ static void shadow_resync (int x)
   g_shadow[x] = g.vals;   // moved-from elements carry the HUSK payload, which copies like any other value
 }
 
+static bool g_alias_op = false;   // the operation in flight takes one of the container's own elements as its argument (C11)
+
 static void shadow_compare (int x, const char *what)
 {
   if (! alive (x)) return;
   GetVals g; with1 (x, g);
   std::vector<int>& s = g_shadow[x];
   if (g.vals.size () != s.size ())
-  { std::ostringstream m; m << NAMES[x] << " after " << what << ": size " << g.vals.size () << " but std::vector has " << s.size (); wmsg ("C01", m.str ()); return; }
+  { std::ostringstream m; m << NAMES[x] << " after " << what << ": size " << g.vals.size () << " but std::vector has " << s.size (); wmsg ("C01", m.str ()); if (g_alias_op) wmsg ("C11", std::string ("argument aliasing the container: ") + m.str ()); return; }
   for (std::size_t i = 0; i < s.size (); ++i)
   {
     if (g.vals[i] != s[i])
-    { std::ostringstream m; m << NAMES[x] << " after " << what << ": element " << i << " is " << (g.husk[i] ? std::string ("moved-from") : std::to_string (g.vals[i])) << " but std::vector has " << s[i]; wmsg ("C01", m.str ()); return; }
+    { std::ostringstream m; m << NAMES[x] << " after " << what << ": element " << i << " is " << (g.husk[i] ? std::string ("moved-from") : std::to_string (g.vals[i])) << " but std::vector has " << s[i]; wmsg ("C01", m.str ()); if (g_alias_op) wmsg ("C11", std::string ("argument aliasing the container (the shadow std::vector was given an independent copy): ") + m.str ()); return; }
   }
 }
 
@@ -1038,7 +1040,9 @@ static void run_line (const std::string& line_in)
       if (want != out) wmsg ("C01", o + ": returned " + out + " but std::vector gives " + want);
       // unspecified by the standard: the contents of a moved-from source — resynchronise the shadow to it
       if (o == "newm" || o == "asm") shadow_resync (c.y);
+      g_alias_op = c.self;
       shadow_compare (c.x, o.c_str ());
+      g_alias_op = false;
       if (c.y >= 0) shadow_compare (c.y, o.c_str ());
     }
     else if (o == "at" && exc == "range")
